@@ -174,6 +174,7 @@ void drv_case (uint64_t idx) {
   if (vp_verbose) { FILE *pf = fopen ("/tmp/vp_case.mir", "w"); if (pf) { fputs (PT, pf); fclose (pf); } }
   obs ref, o; run_history (edge, kind, sig, seq, l, E_INTERP, 2, &ref);
   if (ref.err) { vp_fail ("mir-error", "MIR_interp: %s", ref.msg); return; }
+  if (vp_verbose) for (int i = 0; i < l; i++) fprintf (stderr, "ref ret[%d]=%#llx st=%#llx\n", i, (unsigned long long) ref.ret[i], (unsigned long long) ref.st);
   uint64_t beh = 11; for (int i = 0; i < l; i++) beh = vp_hash_u64 (beh, (uint64_t) ref.ret[i]); beh = vp_hash_u64 (beh, (uint64_t) ref.st); beh = vp_hash_u64 (beh, ref.log); vp_outcome (beh);
   static const mh_engine ENG[] = {E_ISHIM, E_GEN2, E_LAZY, E_LAZYBB}; uint64_t compared = 0;
   for (int ei = 0; ei < 4; ei++)
